@@ -46,6 +46,7 @@ type zOut struct {
 	Notes []string
 	Notes2 []string
 	Notes3 []string // ephemeral writes whose key does not belong to the writing session
+	Notes4 []string // plain keys turned into ephemeral ones
 	Skipped map[int]bool // ops whose request was lost and NOT re-sent (the client had already noticed the disconnect): no effect
 	Fired map[int]bool // op index -> the connection of the op's client was really cut during the op
 	AdvAfter map[int]int // op index -> milliseconds the harness itself spent inside a composite op (the machine's clock is advanced by them)
@@ -257,6 +258,8 @@ func zRun(t *testing.T, in zIn) zOut {
 				// caller takes the key for one that goes away with its session
 				if n, ok := srv.Dump()[full]; ok && n.EphemeralOwner == 0 {
 					out.Notes3 = append(out.Notes3, fmt.Sprintf("op %d: SetEphemeral %q over a plain key is acknowledged and the key stays plain (owner 0): it will outlive the writing session %x", len(out.Res), o.P, z.conn.SessionID()))
+				} else {
+					out.Notes4 = append(out.Notes4, fmt.Sprintf("op %d: SetEphemeral %q over a plain key is acknowledged and the key now is ephemeral (owner %x): a plain key was silently turned into an ephemeral one and will vanish with that session", len(out.Res), o.P, n.EphemeralOwner))
 				}
 			}
 			if mustWork && res != "ZOk" {
@@ -733,6 +736,9 @@ func zMonitor(m *vk.Meta, in zIn, out zOut) {
 	}
 	for _, n := range out.Notes3 {
 		m.Violation("ephemeral keys exist only while the session that created them lives", in, n)
+	}
+	for _, n := range out.Notes4 {
+		m.Violation("a plain key is never silently turned into an ephemeral one", in, n)
 	}
 	// ephemeral keys exist only while the creating session lives
 	live := map[int64]bool{}
